@@ -119,6 +119,10 @@ pub fn fired(trace: &[TraceEvent]) -> Fired {
             "openw" => {
                 f.write_failed.insert(ev.target.clone());
             }
+            "rename" if ev.ret < 0 => {
+                // the last step of a write through a temporary file
+                f.write_failed.insert(ev.target.clone());
+            }
             "write" if ev.ret < 0 => {
                 if ev.target.starts_with('@') {
                     f.std_stream_failed = true;
